@@ -128,6 +128,9 @@ class JSONPointer:
 
     def _getitem(self, obj: Any, key: Any) -> Any:  # noqa: PLR0912
         try:
+            if isinstance(obj, str):
+                # A string is a JSON primitive, not an array of characters.
+                raise TypeError("string indices are not supported")
             return getitem(obj, key)
         except KeyError as err:
             # Try a string repr of the index-like item as a mapping key.
